@@ -195,9 +195,12 @@ def _selectors(p):
 @st.composite
 def stream_cases(draw, name, tier):
     hi = 400 if tier == "quick" else 2000
-    return {"tool": name, "length": draw(st.integers(50, hi)), "nsrc": draw(st.integers(1, 3)),
-            "k": draw(st.integers(1, 6) if name not in ("batched", "nlargest", "nsmallest")
-                      else st.one_of(st.integers(1, 6), st.integers(7, 40))),
+    k = draw(st.integers(1, 6) if name not in ("batched", "nlargest", "nsmallest")
+             else st.one_of(st.integers(1, 6), st.integers(7, 40), st.sampled_from([255, 256, 257, 300])))
+    # (a big window needs a stream that is several times longer for the bound to say anything)
+    length = draw(st.integers(50, hi)) if k < 200 else draw(st.integers(1500, 2500))
+    return {"tool": name, "length": length, "nsrc": draw(st.integers(1, 3)),
+            "k": k,
             "flag": draw(st.booleans()),
             "src": draw(st.sampled_from(["agen", "aclass", "iter", "sized", "sized-sync"])),
             "keys": draw(st.sampled_from(["inc", "const", "mod"]))}
